@@ -112,6 +112,26 @@ func init() {
 			if g.chance(1, 2) {
 				p.Knobs.MapSeed = g.R.Uint64() | 1
 			}
+			if g.chance(1, 4) {
+				// connections come and go while Sets are committed: the mastership and configuration controllers write
+				// the same Configuration record (terms, synchronisation state) as the commits do
+				p.Profile += "+reconnects"
+				p.Knobs.SharedChannel = g.chance(1, 2)
+				for _, t := range p.Knobs.Targets {
+					p.Knobs.ConnLate[t] = false
+				}
+				for i := 0; i <= g.pick(3); i++ {
+					t := p.Knobs.Targets[g.pick(len(p.Knobs.Targets))]
+					k := []string{"conn-replace", "conn-down", "dev-restart"}[g.pick(3)]
+					f := Fault{Kind: k, Target: t}
+					if g.chance(1, 2) {
+						f.On, f.N = "effect", 10+g.pick(150)
+					} else {
+						f.On, f.N = "during-devset", 1+g.pick(6)
+					}
+					p.Faults = append(p.Faults, f)
+				}
+			}
 			return p
 		},
 		Arm: func(s *Sys) { s.Mon = append(s.Mon, &c03{s: s}) },
